@@ -28,3 +28,10 @@ Definition demo_acceptor_ops (ec : bool) (clients : list bytes) (snd tgt : bytes
 (* an initiator that has sent its Logon *)
 Definition demo_init_sess : sess :=
   mkSess st_logon_sent 2 1 true T0 0 30 Initiator id_CLI id_SRV [] demo_params [] (p_empty PNone) false false true 0 0.
+
+(* identities whose printable ids coincide: the initiator is (A->B, C); the response comes from B->C to A *)
+Definition id_AB : bytes := [65;45;62;66].
+Definition id_BC : bytes := [66;45;62;67].
+Definition demo_amb_start : startp := mkStart Initiator PNone id_AB [67] demo_params 30 0 0.
+Definition demo_amb_ops (snd tgt : bytes) : list op :=
+  [OStart demo_amb_start None; OIn [demo_logon_raw snd tgt 1]].
